@@ -588,6 +588,31 @@ func ruleO4(c *an.Ctx) {
 		})
 		c.Check("O4", "fork-roots(Exp.FindRefs and ResolvedBinding.FindRefs)@(*Node).makePrenodesForBinding", mpb.Pos(), nExp >= 1 && nBind >= 1,
 			fmt.Sprintf("both the typed references and the raw expression references (fork roots) must be collected (typed=%d raw=%d)", nBind, nExp))
+		// the raw-reference pass is unconditional: every path that returns passes bind.Exp.FindRefs(),
+		// and its elements are inserted into a map (the prenode set)
+		isRaw := func(in ssa.Instruction) bool {
+			call, ok := in.(*ssa.Call)
+			return ok && call.Call.IsInvoke() && call.Call.Method.Name() == "FindRefs"
+		}
+		w := an.Query{Fn: mpb, Target: func(in ssa.Instruction) bool { _, ok := in.(*ssa.Return); return ok }, Barrier: isRaw}.Find()
+		c.Check("O4", "fork-roots(raw pass unconditional)@(*Node).makePrenodesForBinding", mpb.Pos(), w == nil,
+			"every returning path must collect the raw expression references: a call mapped over or disabled by a reference that contributes no typed value still has to wait for it; "+c.WitnessString(w))
+		inserted := false
+		an.Instrs(mpb, func(in ssa.Instruction) {
+			mu, ok := in.(*ssa.MapUpdate)
+			if !ok {
+				return
+			}
+			sl := newSlice(mpb)
+			sl.add(mu.Key)
+			for v := range sl.seen {
+				if ci, ok := v.(ssa.Instruction); ok && isRaw(ci) {
+					inserted = true
+				}
+			}
+		})
+		c.Check("O4", "fork-roots(raw refs inserted)@(*Node).makePrenodesForBinding", mpb.Pos(), inserted,
+			"the nodes named by the raw expression references must be inserted into the prenode set (a map update whose key derives from the FindRefs() result)")
 	}
 }
 
